@@ -14,6 +14,13 @@ use std::collections::BTreeMap;
 pub struct CorpusSpec {
     pub w: Workload,
     pub extra_meta: bool,
+    /// size in bytes of an additional (large) unknown metadata block, 0 = none
+    #[serde(default)]
+    pub big_meta: usize,
+    /// STREAMINFO fields left "unknown" (zero), as a streaming writer may do:
+    /// bit 0 = total sample count, bit 1 = min/max frame size, bit 2 = MD5
+    #[serde(default)]
+    pub unknown: u8,
 }
 
 pub struct CorpusItem {
@@ -45,15 +52,18 @@ fn base(channels: usize, bits: usize, block: usize, nfull: usize, residue: usize
         faults: vec![],
         hashq_cap: 16,
         probe_reads: vec![],
+        synthetic_silence: false,
         pre: None,
     }
 }
 
-const DESIGNED: usize = 20;
+const DESIGNED: usize = 24;
 
 pub fn spec(seed: u64, idx: usize) -> CorpusSpec {
     let s = mix(seed, 0xC0_4B05 + idx as u64);
     let mut extra_meta = false;
+    let mut big_meta = 0usize;
+    let mut unknown = 0u8;
     let w = match idx {
         0 => base(1, 16, 32, 1, 0, &[0], s),
         1 => base(1, 8, 32, 2, 0, &[4], s),
@@ -119,6 +129,28 @@ pub fn spec(seed: u64, idx: usize) -> CorpusSpec {
             w
         }
         19 => base(1, 16, 32, 0, 0, &[0], s), // empty input: STREAMINFO only
+        // --- size and header diversity (sizes that cross internal piece/threshold boundaries) ---
+        20 => {
+            // one ~96 KB verbatim stereo frame (a frame larger than 64 KiB)
+            let mut w = base(2, 16, 24000, 1, 0, &[4, 4], s);
+            w.cfg.use_fixed = false;
+            w.cfg.use_lpc = false;
+            w
+        }
+        21 => {
+            // a 4 KiB application metadata block in front of a small stream
+            big_meta = 4096;
+            base(1, 16, 64, 2, 0, &[11], s)
+        }
+        22 => {
+            // STREAMINFO with unknown total / frame sizes / MD5 (zeros), short last frame
+            unknown = 7;
+            base(2, 16, 48, 2, 17, &[11, 5], s)
+        }
+        23 => {
+            // maximum block size, Rice-coded (sine + noise) frames of ~20 KB each
+            base(1, 16, 32767, 3, 0, &[11], s)
+        }
         _ => {
             let mut r = Rng::new(s);
             let channels = if r.chance(0.4) { 2 } else { 1 + r.below(4) };
@@ -135,11 +167,19 @@ pub fn spec(seed: u64, idx: usize) -> CorpusSpec {
             }
             w.rate = *r.pick(crate::workload::RATES);
             extra_meta = r.chance(0.15);
+            if r.chance(0.12) {
+                unknown = 1 + r.below(7) as u8;
+            }
             w
         }
     };
     let _ = DESIGNED;
-    CorpusSpec { w, extra_meta }
+    CorpusSpec {
+        w,
+        extra_meta,
+        big_meta,
+        unknown,
+    }
 }
 
 pub fn stream_bytes(stream: &Stream) -> Vec<u8> {
@@ -158,6 +198,10 @@ pub fn build_spec(idx: usize, spec: CorpusSpec) -> CorpusItem {
     if spec.extra_meta {
         stream.add_metadata_block(MetadataBlockData::new_unknown(4, &meta_blob()).expect("HARNESS: metadata"));
     }
+    if spec.big_meta > 0 {
+        stream.add_metadata_block(MetadataBlockData::new_unknown(2, &big_blob(spec.big_meta)).expect("HARNESS: metadata"));
+    }
+    apply_unknown(&mut stream, spec.unknown);
     let bytes = stream_bytes(&stream);
     CorpusItem {
         idx,
@@ -165,6 +209,22 @@ pub fn build_spec(idx: usize, spec: CorpusSpec) -> CorpusItem {
         stream,
         bytes,
         audio,
+    }
+}
+
+pub fn big_blob(n: usize) -> Vec<u8> {
+    (0..n).map(|i| (i as u8).wrapping_mul(101) ^ 0x3C).collect()
+}
+
+fn apply_unknown(stream: &mut Stream, unknown: u8) {
+    if unknown & 1 != 0 {
+        stream.stream_info_mut().set_total_samples(0);
+    }
+    if unknown & 2 != 0 {
+        stream.stream_info_mut().set_frame_sizes(0, 0).expect("HARNESS: frame sizes");
+    }
+    if unknown & 4 != 0 {
+        stream.stream_info_mut().set_md5_digest(&[0u8; 16]);
     }
 }
 
@@ -180,6 +240,9 @@ pub fn rebuild(item: &CorpusItem, precompute: bool) -> Stream {
     if item.spec.extra_meta {
         out.add_metadata_block(MetadataBlockData::new_unknown(4, &meta_blob()).expect("HARNESS: metadata"));
     }
+    if item.spec.big_meta > 0 {
+        out.add_metadata_block(MetadataBlockData::new_unknown(2, &big_blob(item.spec.big_meta)).expect("HARNESS: metadata"));
+    }
     for n in 0..st.frame_count() {
         let mut f = st.frame(n).unwrap().clone();
         if precompute {
@@ -188,6 +251,7 @@ pub fn rebuild(item: &CorpusItem, precompute: bool) -> Stream {
         out.add_frame(f);
     }
     out.stream_info_mut().set_total_samples(st.stream_info().total_samples());
+    apply_unknown(&mut out, item.spec.unknown);
     // A copy that serialises differently (a writer that is not a function of the component: C08/C15's
     // business) cannot serve as the clean reference of a fault sweep; it is skipped and counted.
     if stream_bytes(&out) != item.bytes {
